@@ -41,6 +41,11 @@ class C12(core.Check):
         'calendar_ranges (component ranges of every epoch second) is a hypothesis here; it is proved in C01',
         '+-inf cells are clamped by nan_to_num to the largest finite value: finite by the letter, compared as such; '
         'they are not combined with LayerNorm (overflow to NaN inside the post module is outside the encoder)',
+        'encoding_never_fails / stypewise_accepts_materialized take "the block is what the mappers emit for fitted data" '
+        '(Fitted) and "imputed values are fitted values" (FittedStats) as hypotheses; both are re-checked on the real frame '
+        'and statistics of every generated case (oracle_fitted). FittedStats needs a non-empty fitted vocabulary for '
+        'MultiCategoricalEmbeddingEncoder(na_strategy=ZEROS): the generator keeps such columns non-empty and the '
+        'empty-vocabulary input (on which the real encoder raises) is recorded under observed_outside_generated_domain',
     )
     assumptions = ('PyTorch follows the IEEE NaN rules made explicit in SOps.lift (NaN propagates through arithmetic, '
                    'comparisons with NaN are false, bucketize(NaN) = last bucket, nan_to_num(NaN) = 0)',)
@@ -259,6 +264,91 @@ class C12(core.Check):
                 if names != sorted(names):
                     return core.Violation('C12/names-sorted', 'group names not sorted', case, sorted(names), names)
                 off += len(names)
+        return self.oracle_fitted(case, ds, tf) or self.oracle_embedding_rows(case, ds, tf, wise)
+
+    @staticmethod
+    def oracle_fitted(case, ds, tf):
+        """the hypothesis `Fitted` of `encoding_never_fails`, read off the real frame and the real statistics:
+        whatever the mappers emitted for the fitted columns is inside the encoders' domains"""
+        t = G.T()
+        stype, Stat = t['stype'], t['Stat']
+        CAL = [11, 30, 6, 23, 59, 59]
+
+        def bad(col, what, exp, act):
+            return core.Violation('C12/outside-encoder-domain', f'materialized column {col}: {what}', case, exp, act)
+        for s in tf.stypes:
+            names, feat = tf.col_names_dict[s], tf.feat_dict[s]
+            if s == stype.categorical:
+                for c, nm in enumerate(names):
+                    n = len(ds.col_stats[nm][Stat.COUNT][0])
+                    vals = feat[:, c].tolist()
+                    if any(not (-1 <= v < n) for v in vals):
+                        return bad(nm, 'a category index is outside [-1, number of fitted categories)', f'[-1, {n})', vals)
+            elif s == stype.multicategorical:
+                cells = G.mnt_cells(feat)
+                for c, nm in enumerate(names):
+                    n = len(ds.col_stats[nm][Stat.MULTI_COUNT][0])
+                    for row in cells:
+                        if any(not (-1 <= v < n) for v in row[c]):
+                            return bad(nm, 'a multicategorical entry is outside [-1, number of fitted categories)',
+                                       f'[-1, {n})', row[c])
+            elif s == stype.timestamp:
+                x = feat.tolist()
+                for c, nm in enumerate(names):
+                    lo = int(ds.col_stats[nm][Stat.YEAR_RANGE][0])
+                    fills = [[int(v) for v in ds.col_stats[nm][k]] for k in (Stat.NEWEST_TIME, Stat.OLDEST_TIME,
+                                                                             Stat.MEDIAN_TIME)]
+                    for ts in [row[c] for row in x] + fills:
+                        if any(v < 0 for v in ts):
+                            continue            # missing cell
+                        if len(ts) != 7 or ts[0] < lo or any(not (0 <= v <= m) for v, m in zip(ts[1:], CAL)):
+                            return bad(nm, 'calendar components outside the positional / cyclic encodings\' domain',
+                                       f'year >= {lo}, components <= {CAL}', ts)
+            elif s == stype.embedding:
+                dims = [int(ds.col_stats[nm][Stat.EMB_DIM]) for nm in names]
+                off = [0]
+                for d in dims:
+                    off.append(off[-1] + d)
+                if feat.offset.tolist() != off or (feat.values.dim() == 2 and feat.values.shape[1] != off[-1]):
+                    return bad(names, 'the cumulative EMB_DIM slices do not coincide with the container offsets', off,
+                               feat.offset.tolist())
+        return None
+
+    @staticmethod
+    def oracle_embedding_rows(case, ds, tf, wise):
+        """textbook form of the shared embedding table, read off the real module: fitted category `v` of column `c`
+        is embedded as row `1 + n_0 + ... + n_{c-1} + v` of a table with `1 + sum(n)` rows (so distinct
+        (column, category) pairs never share a row), a missing cell as the padding row 0"""
+        t = G.T()
+        torch, stype, Stat = t['torch'], t['stype'], t['Stat']
+        e = case['enc'].get('categorical')
+        if not e or e['cls'] != 'embedding' or 'categorical' not in wise.encoder_dict:
+            return None
+        m = wise.encoder_dict['categorical']
+        names = tf.col_names_dict[stype.categorical]
+        ns = [len(ds.col_stats[nm][Stat.COUNT][0]) for nm in names]
+        W = m.emb.weight.detach()
+        if W.shape[0] != sum(ns) + 1:
+            return core.Violation('C12/embedding-table-size', 'the shared embedding table does not have one row per fitted '
+                                  '(column, category) pair plus the padding row', case, sum(ns) + 1, W.shape[0])
+        C = len(names)
+        dtype = tf.feat_dict[stype.categorical].dtype
+        for c in range(C):
+            for v in [-1] + list(range(ns[c])):
+                probe = torch.full((1, C), -1, dtype=dtype)
+                probe[0, c] = v
+                row = 0 if v < 0 else 1 + sum(ns[:c]) + v
+                try:
+                    got = m.encode_forward(probe.clone())[0, c].detach()
+                except Exception as ex:
+                    return core.Violation('C12/embedding-index-out-of-range', f'fitted category {v} of categorical column '
+                                          f'{c} ({names[c]}) is outside the embedding table: {type(ex).__name__}', case,
+                                          f'row {row} of {W.shape[0]}', 'raises')
+                if not torch.equal(got, W[row]):
+                    return core.Violation('C12/embedding-row', f'category {v} of categorical column {c} ({names[c]}, fitted '
+                                          f'category counts {ns}) is not embedded as row {row} of the shared table '
+                                          f'(rows are shared between distinct (column, category) pairs or out of place)',
+                                          case, W[row].tolist(), got.tolist())
         return None
 
     # ------------------------------------------------------------------ lazy construction
@@ -382,6 +472,10 @@ class C12(core.Check):
             except Exception as ex:
                 self._viol[key] = core.Violation('C12/lazy-eager-raises', f'eager construction raised {type(ex).__name__} '
                                                  f'although the lazy one completed', case, None, str(ex)[:200])
+        elif dead and not case['bad_na']:
+            self._viol[key] = core.Violation('C12/lazy-assignment-raises', 'supplying a lazy attribute of an admissibly '
+                                             'configured encoder raised (init_modules ran too early or failed)', case,
+                                             'accepted', 'raises')
         elif not dead and isinstance(last, dict) and last['missing'] > 0 and last['call'] != 'raises':
             self._viol[key] = core.Violation('C12/incomplete-runs', 'an incompletely specified encoder did not refuse to run',
                                              case, 'raises', last['call'])
@@ -551,12 +645,12 @@ class C12(core.Check):
         """recorded, not alarmed: see the final report of this check's builder"""
         t = G.T()
         case = {'nrows': 3, 'cols': [{'name': 'm', 'stype': 'multicategorical', 'values': ['', None, '']}]}
-        ds = G.make_dataset(case)
-        tf = ds.tensor_frame
-        st = t['stype'].multicategorical
-        enc = t['E'].StypeWiseFeatureEncoder(2, ds.col_stats, tf.col_names_dict,
-                                             {st: t['E'].MultiCategoricalEmbeddingEncoder(na_strategy=t['NA'].ZEROS)})
         try:
+            ds = G.make_dataset(case)
+            tf = ds.tensor_frame
+            st = t['stype'].multicategorical
+            enc = t['E'].StypeWiseFeatureEncoder(2, ds.col_stats, tf.col_names_dict,
+                                                 {st: t['E'].MultiCategoricalEmbeddingEncoder(na_strategy=t['NA'].ZEROS)})
             enc(tf)
             res = 'ok'
         except Exception as ex:
